@@ -140,6 +140,17 @@ def run(ctx):
                 unmatched.append((a, b, kw, c))
         if unmatched:
             a, b, kw, c = unmatched[0]
+            # endpoints produced by a generator (lazily described arcs): which
+            # pairs are emitted is decided inside the generator, out of sight
+            for lp in _enclosing_loops(f, c):
+                itx = ctx.norm.xexpr(f, lp.iter)
+                if isinstance(itx, ast.Call):
+                    ts, _n = ctx.res.callees(f, itx, f.cls)
+                    if any(any(isinstance(y, (ast.Yield, ast.YieldFrom)) for y in ast.walk(t.node)) for t in ts if not isinstance(t.node, ast.Lambda)):
+                        raise AnalysisError(
+                            f"{f.loc(c)}: {name} takes its edge endpoints from a generator (`{ast.unparse(lp.iter)[:50]}`): "
+                            "the set of pairs is not visible at the add_edge call, the symmetry rule is not evaluated"
+                        )
             rev = [x for x in pairs if x[0] == b and x[1] == a]
             why = "with different attributes" if rev else "at all"
             chk.violation(
@@ -264,6 +275,18 @@ def run(ctx):
         cond = [c for c in called if not isinstance(f.module.parents.get(f.module.parents.get(c[2])), (ast.FunctionDef,))]
         bad = False
         if missing:
+            # delegation to a private builder object / class: what it calls is
+            # not visible in this function - refuse instead of reporting
+            deleg = [
+                n for n in own_nodes(f.node)
+                if isinstance(n, ast.Call) and (q := repo.resolve(f.module.name, dotted(n.func) or "")) and q in repo.classes
+                and q.split(".")[-1] not in ("JobShopGraph", "Node")
+            ]
+            if deleg:
+                raise AnalysisError(
+                    f"{f.loc(deleg[0])}: {bname} delegates the assembly to `{ast.unparse(deleg[0].func)}` (a builder object): which "
+                    "building blocks run, and in which order, is decided by method calls on that object that are not traced"
+                )
             bad = True
             chk.violation("R16.c", f, None, f"{bname} does not call {sorted(missing)}: the graph lacks those nodes/edges")
         if extra:
